@@ -42,6 +42,7 @@ from src.cli.utils import (
     execute_linting_on_paths,
     format_option,
     get_or_detect_project_root,
+    group_config_file,
     handle_linting_error,
     load_config_file,
     parallel_option,
@@ -79,6 +80,7 @@ def _apply_orchestrator_config(
     orchestrator: "Orchestrator", config_file: str | None, rules: str | None, verbose: bool
 ) -> None:
     """Apply configuration to orchestrator."""
+    config_file = config_file or group_config_file()
     if rules:
         _apply_inline_rules(orchestrator, rules, verbose)
     elif config_file:
